@@ -4,40 +4,51 @@ import Driver.Common
    (the very function the theorems of CelloProofs/Props/C03.lean are about) and prints the same `O` lines:
 
      auto 0|1                 dump the whole tree after every mutating op (default 1) or only `n=`
-     new T i|s [k v]…         set T k v      rem T k      get T k      mem T k      len T      resize T n
+     new T <kind> [k v]…      kind = key kind i (Int) | s (String) | w (24-byte struct `a,b,c`), then value kind
+                              (none) Int | 3 (24-byte struct `x,y,z`) | 5 (40-byte struct)
+     set T k v      rem T k      get T k      mem T k      len T      resize T n
      assign T S               copy T S       iter T       riter T      del T        check T
      remroot T  /  rem2 T     rem of the root's key / of the key of the first node (preorder) with two children
 
-   dump = `n=<nitems> ok=<invariants hold> h=<height> t=<preorder (colour key:value left right) | #hash when n>40>` -/
+   dump = `n=<nitems> ok=<invariants hold> h=<height> sz=<ksize>/<vsize> t=<preorder (colour key:value left right) | #hash when n>40>` -/
 open Cello.RB
 
-abbrev KT := T Key Int
-abbrev KTree := Tree Key Int
+abbrev KT := T Key Val
+abbrev KTree := Tree Key Val
 
 def mixstep (h x : UInt64) : UInt64 := (h ^^^ x) * 0x100000001b3
 def fnvInit : UInt64 := 0xcbf29ce484222325
 
+/-- one word: the word itself; more: FNV over the words -/
+def wordsHash : List Int → UInt64
+  | [x] => UInt64.ofInt x
+  | l => l.foldl (fun h x => mixstep h (UInt64.ofInt x)) fnvInit
+
 def keyHash : Key → UInt64
   | .i n => UInt64.ofInt n
   | .s x => x.toUTF8.foldl (fun h b => mixstep h b.toUInt64) fnvInit
+  | .w a b r => wordsHash (a :: b :: r)
 
 def treeHash : KT → UInt64
   | .nil => 0x9E3779B97F4A7C15
   | .node c l k v r =>
-    [if c = .R then 1 else 0, keyHash k, UInt64.ofInt v, treeHash l, treeHash r].foldl mixstep fnvInit
+    [if c = .R then 1 else 0, keyHash k, wordsHash v, treeHash l, treeHash r].foldl mixstep fnvInit
 
 def hex16 (x : UInt64) : String :=
   let d := Nat.toDigits 16 x.toNat
   String.ofList (List.replicate (16 - d.length) '0' ++ d)
 
+def showWords (l : List Int) : String := ",".intercalate (l.map toString)
+
 def showKey : Key → String
   | .i n => toString n
   | .s x => x
+  | .w a b r => showWords (a :: b :: r)
 
 def preorder : KT → String
   | .nil => "."
   | .node c l k v r =>
-    "(" ++ (if c = .R then "R" else "B") ++ showKey k ++ ":" ++ toString v ++ " " ++ preorder l ++ " " ++ preorder r ++ ")"
+    "(" ++ (if c = .R then "R" else "B") ++ showKey k ++ ":" ++ showWords v ++ " " ++ preorder l ++ " " ++ preorder r ++ ")"
 
 def rootKey : KT → Option Key
   | .nil => none
@@ -52,7 +63,7 @@ def firstTwoChildren : KT → Option Key
 
 /-! statistics only: which branches of `setFix` / `remFix` an operation takes (mirrors their tests; not part of the model) -/
 
-def setFixTags : KT → Path Key Int → List String
+def setFixTags : KT → Path Key Val → List String
   | _, [] => ["set:root"]
   | _, [f] => if f.c = .B then ["set:black-parent"] else ["set:ub"]
   | t, f :: g :: up =>
@@ -61,15 +72,15 @@ def setFixTags : KT → Path Key Int → List String
       "set:red-uncle" :: setFixTags (mk { g with c := .R, sib := setColor .B g.sib } (mk { f with c := .B } t)) up
     else if g.dir = f.dir then ["set:outer-rotation"] else ["set:inner-rotation"]
 
-def insTags : KT → Path Key Int → Key → List String
-  | .nil, p, k => setFixTags (.node .R .nil k 0 .nil) p
+def insTags : KT → Path Key Val → Key → List String
+  | .nil, p, k => setFixTags (.node .R .nil k [] .nil) p
   | .node c l nk nv r, p, k =>
     match Key.cmp nk k with
     | .eq => ["set:update"]
     | .lt => insTags l ({ dir := .L, c := c, k := nk, v := nv, sib := r } :: p) k
     | .gt => insTags r ({ dir := .Rt, c := c, k := nk, v := nv, sib := l } :: p) k
 
-def remBodyTags (f : Frame Key Int) : List String × Bool :=   -- tags, and whether the loop continues at the parent
+def remBodyTags (f : Frame Key Val) : List String × Bool :=   -- tags, and whether the loop continues at the parent
   match f.sib with
   | .nil => (["rem:ub"], false)
   | .node sc sl _ _ sr =>
@@ -79,7 +90,7 @@ def remBodyTags (f : Frame Key Int) : List String × Bool :=   -- tags, and whet
       let near := if f.dir = .L then color sl = .R ∧ color sr = .B else color sr = .R ∧ color sl = .B
       ((if sc = .B ∧ near then ["rem:near-nephew-rotation"] else []) ++ ["rem:far-nephew-rotation"], false)
 
-def remFixTags : Path Key Int → List String
+def remFixTags : Path Key Val → List String
   | [] => ["rem:fix-reached-root"]
   | f :: rest =>
     if color f.sib = .R then
@@ -88,13 +99,13 @@ def remFixTags : Path Key Int → List String
       let r := remBodyTags f
       if r.2 then r.1 ++ remFixTags rest else r.1
 
-def spliceTags (x : Loc Key Int) : List String :=
+def spliceTags (x : Loc Key Val) : List String :=
   (if x.path.isEmpty then ["rem:root-node"] else []) ++
   (if x.c = .B then
      (if color x.child = .R then ["rem:black-with-red-child"] else ["rem:black-leaf"]) ++ remFixTags x.path
    else ["rem:red-leaf"])
 
-def remTags : KT → Path Key Int → Key → List String
+def remTags : KT → Path Key Val → Key → List String
   | .nil, _, _ => ["rem:absent"]
   | .node c l nk nv r, p, k =>
     match Key.cmp nk k with
@@ -109,9 +120,14 @@ def remTags : KT → Path Key Int → Key → List String
     | .lt => remTags l ({ dir := .L, c := c, k := nk, v := nv, sib := r } :: p) k
     | .gt => remTags r ({ dir := .Rt, c := c, k := nk, v := nv, sib := l } :: p) k
 
-def opTags (st : Store KTree) : Op Key Int → List String
+def opTags (st : Store KTree) : Op Key Val → List String
   | .set t k _ => match Store.get? st t with | some m => insTags m.root [] k | none => []
-  | .rem t k => match Store.get? st t with | some m => remTags m.root [] k | none => []
+  | .rem t k =>
+    match Store.get? st t with
+    | some m =>
+      let tags := remTags m.root [] k
+      if tags.contains "rem:two-children" && m.ksize != m.vsize then "rem:relocation-ksize-ne-vsize" :: tags else tags
+    | none => []
   | _ => []
 
 def bumpAll (tags : List String) (acc : List (String × Nat)) : List (String × Nat) :=
@@ -122,40 +138,66 @@ def bigLimit : Nat := 40
 
 def dumpTree (m : KTree) : String :=
   let ok := if m.validB Key.cmp then "1" else "0"
-  s!"n={m.nitems} ok={ok} h={height m.root} t=" ++
+  s!"n={m.nitems} ok={ok} h={height m.root} sz={m.ksize}/{m.vsize} t=" ++
     (if m.nitems > bigLimit then "#" ++ hex16 (treeHash m.root) else preorder m.root)
 
-def showItems (l : List (Key × Int)) (term : Bool) : String :=
+def showItems (l : List (Key × Val)) (term : Bool) : String :=
   let body :=
     if l.length > bigLimit then
-      s!"#{l.length}:" ++ hex16 (l.foldl (fun h kv => mixstep (mixstep h (keyHash kv.1)) (UInt64.ofInt kv.2)) fnvInit)
-    else " ".intercalate (l.map (fun kv => showKey kv.1 ++ ":" ++ toString kv.2))
+      s!"#{l.length}:" ++ hex16 (l.foldl (fun h kv => mixstep (mixstep h (keyHash kv.1)) (wordsHash kv.2)) fnvInit)
+    else " ".intercalate (l.map (fun kv => showKey kv.1 ++ ":" ++ showWords kv.2))
   (if term then "" else "NOT-TERMINATED ") ++ body
+
+/-- key kind of a tree: 0 Int, 1 String, 2 the 24-byte struct; and the number of words in a value -/
+abbrev Kind := Nat × Nat
 
 structure DState where
   st : Store KTree := []
-  isStr : Store Bool := []
+  kinds : Store Kind := []
   auto : Bool := true
   -- statistics (S line)
   nops : Nat := 0
   nub : Nat := 0
   tags : List (String × Nat) := []
 
-def parseKey (str : Bool) (s : String) : Option Key :=
-  if str then (if s.isEmpty then none else some (.s s)) else s.toInt?.map .i
+/-- exactly `n` comma-separated integers -/
+def parseWords (n : Nat) (s : String) : Option (List Int) :=
+  let parts := s.splitOn ","
+  if parts.length != n then none else parts.mapM (·.toInt?)
 
-def parsePairs (str : Bool) : List String → Option (List (Key × Int))
+def parseKey (kk : Nat) (s : String) : Option Key :=
+  if kk = 1 then (if s.isEmpty then none else some (.s s))
+  else if kk = 2 then
+    match parseWords 3 s with
+    | some (a :: b :: r) => some (.w a b r)
+    | _ => none
+  else s.toInt?.map .i
+
+def parseVal (vw : Nat) (s : String) : Option Val := parseWords vw s
+
+def parseKind (s : String) : Option Kind :=
+  match s.toList with
+  | [c] => (if c = 'i' then some 0 else if c = 's' then some 1 else if c = 'w' then some 2 else none).map (·, 1)
+  | [c, d] =>
+    (if c = 'i' then some 0 else if c = 's' then some 1 else if c = 'w' then some 2 else none).bind fun kk =>
+      if d = '3' then some (kk, 3) else if d = '5' then some (kk, 5) else none
+  | _ => none
+
+/-- `size(K)`, `size(V)` in bytes -/
+def kindSizes (kd : Kind) : Nat × Nat := ((if kd.1 = 2 then 24 else 8), 8 * kd.2)
+
+def parsePairs (kd : Kind) : List String → Option (List (Key × Val))
   | [] => some []
   | [_] => none
   | k :: v :: rest => do
-    let k ← parseKey str k
-    let v ← v.toInt?
-    let r ← parsePairs str rest
+    let k ← parseKey kd.1 k
+    let v ← parseVal kd.2 v
+    let r ← parsePairs kd rest
     pure ((k, v) :: r)
 
-def showObs : Obs Key Int → String
+def showObs : Obs Key Val → String
   | .done => "ok"
-  | .val v => toString v
+  | .val v => showWords v
   | .bool b => if b then "1" else "0"
   | .nat n => toString n
   | .items l t => showItems l t
@@ -164,7 +206,7 @@ def showObs : Obs Key Int → String
   | .noobj => "noobj"
 
 /-- run one parsed op through `step`; `dumpOf` = the tree whose dump follows the observation (mutating ops) -/
-def exec (d0 : DState) (name : String) (op : Op Key Int) (dumpOf : Option Nat) : IO DState := do
+def exec (d0 : DState) (name : String) (op : Op Key Val) (dumpOf : Option Nat) : IO DState := do
   let d := { d0 with tags := bumpAll (opTags d0.st op) d0.tags }
   match step Key.cmp d.st op with
   | none =>
@@ -186,34 +228,34 @@ def main (args : List String) : IO Unit := do
   for l in lines do
     if Driver.isSkippable l then continue
     let ws := Driver.words l
-    let typeOf (t : Nat) : Option Bool := Store.get? d.isStr t
+    let typeOf (t : Nat) : Option Kind := Store.get? d.kinds t
     match ws with
     | ["auto", x] =>
       match x.toNat? with
       | some n => d := { d with auto := n != 0 }
       | none => IO.println "O bad-op"
     | "new" :: t :: ty :: rest =>
-      match t.toNat?, (if ty = "i" then some false else if ty = "s" then some true else none) with
-      | some t, some str =>
-        match parsePairs str rest with
+      match t.toNat?, parseKind ty with
+      | some t, some kd =>
+        match parsePairs kd rest with
         | some init =>
-          d ← exec d "new" (.new t init) (some t)
-          d := { d with isStr := Store.put d.isStr t str }
+          d ← exec d "new" (.new t (kindSizes kd).1 (kindSizes kd).2 init) (some t)
+          d := { d with kinds := Store.put d.kinds t kd }
         | none => IO.println "O bad-op"
       | _, _ => IO.println "O bad-op"
     | ["set", t, k, v] =>
-      match t.toNat?.bind (fun t => (typeOf t).map (t, ·)), v.toInt? with
-      | some (t, str), some v =>
-        match parseKey str k with
-        | some k => d ← exec d "set" (.set t k v) (some t)
-        | none => IO.println "O bad-op"
-      | _, _ => IO.println "O bad-op"
+      match t.toNat?.bind (fun t => (typeOf t).map (t, ·)) with
+      | some (t, kd) =>
+        match parseKey kd.1 k, parseVal kd.2 v with
+        | some k, some v => d ← exec d "set" (.set t k v) (some t)
+        | _, _ => IO.println "O bad-op"
+      | none => IO.println "O bad-op"
     | [opn, t, k] =>
       match t.toNat? with
       | none => IO.println "O bad-op"
       | some t =>
         if opn = "rem" || opn = "get" || opn = "mem" then
-          match (typeOf t).bind (fun str => parseKey str k) with
+          match (typeOf t).bind (fun kd => parseKey kd.1 k) with
           | some k =>
             if opn = "rem" then d ← exec d "rem" (.rem t k) (some t)
             else if opn = "get" then d ← exec d "get" (.get t k) none
@@ -227,15 +269,15 @@ def main (args : List String) : IO Unit := do
           match k.toNat? with
           | some s =>
             match typeOf s with
-            | some str =>
+            | some kd =>
               if opn = "assign" then
                 if (typeOf t).isSome then
                   d ← exec d "assign" (.assign t s) (some t)
-                  d := { d with isStr := Store.put d.isStr t str }
+                  d := { d with kinds := Store.put d.kinds t kd }
                 else IO.println "O bad-op"
               else
                 d ← exec d "copy" (.copy t s) (some t)
-                d := { d with isStr := Store.put d.isStr t str }
+                d := { d with kinds := Store.put d.kinds t kd }
             | none => IO.println "O bad-op"
           | none => IO.println "O bad-op"
         else IO.println "O bad-op"
@@ -248,7 +290,7 @@ def main (args : List String) : IO Unit := do
         else if opn = "riter" then d ← exec d "riter" (.riter t) none
         else if opn = "del" then
           d ← exec d "del" (.del t) none
-          d := { d with isStr := Store.erase d.isStr t }
+          d := { d with kinds := Store.erase d.kinds t }
         else if opn = "remroot" || opn = "rem2" then
           -- the key is chosen by looking at the tree: the root's, or the first node in preorder with two children
           match Store.get? d.st t with
